@@ -114,7 +114,9 @@ def run(chk, facts):
         if not any(x in ret for x in ("TypeResult", "Constrained", "Unified", "Vec<TypeErr>", "Vec<String>", "Result<Self,Self::Error>", "Result<Self,Vec<")):
             continue
         fpm = None
-        for n in walk(fn["body"]):
+        from .common import inline_lets
+        body_i = inline_lets(fn["body"])     # `let msg = helper(..); Err(msg)` is `Err(helper(..))`
+        for n in walk(body_i):
             if n.get("k") == "call" and n["f"].get("k") == "path" and n["f"]["p"] == "Err" and len(n["args"]) == 1:
                 a = strip(n["args"][0])
                 kind, why = _nonempty(fn, n, a)
@@ -125,7 +127,7 @@ def run(chk, facts):
                     n_lit += 1
                     continue
                 if fpm is None:
-                    fpm = parents_map(fn["body"])
+                    fpm = parents_map(body_i)
                 ok = kind in ("guarded", "propagated", "partition")
                 if not ok:
                     ok, why = _guarded_by_nonempty(fpm, n, a)
